@@ -41,7 +41,7 @@ def run(path, gen, rlimit=30, multiple_errors=30, extra=()):
     r = VerusResult()
     cmd = [VERUS, os.path.basename(path), '--edition', '2024', '--output-json', '--time',
            '--error-format=json', '--multiple-errors', str(multiple_errors), '--rlimit', str(rlimit),
-           '--num-threads', '8'] + list(extra)
+           '--num-threads', '8', '--triggers-mode', 'silent'] + list(extra)
     r.cmd = ' '.join(cmd)
     t0 = time.time()
     try:
